@@ -140,7 +140,7 @@ class Expect(object):
     def __init__(self, fx, c):
         self.fx = fx
         self.c = c
-        self.p, self.text, self.pos = fx.printed[c.kind + ':' + c.name]
+        self.p, self.text, self.pos = fx.printed[c.key]
         self.stmts = []          # (node, span)
         self.lists = []          # statement lists: [nodes]
         self.exprs = []          # (node, span, type or None)
@@ -341,7 +341,7 @@ def check_action(fx, c, info, res_classes):
     m = fx.m
 
     def fail(bucket, detail):
-        raise Violation(bucket, info, '%s:%s: %s\n%s' % (c.kind, c.name, detail, fx.source[c.kind + ':' + c.name]))
+        raise Violation(bucket, info, '%s:%s: %s\n%s' % (c.kind, c.name, detail, fx.source[c.key]))
     home = fx.home(c)
     rel = {'function': ('ACT_FNB', 695), 'bridge': ('ACT_BRB', 697), 'classop': ('ACT_OPB', 696), 'instop': ('ACT_OPB', 696),
            'derived': ('ACT_DAB', 693), 'state': ('ACT_SAB', 691), 'txn': ('ACT_TAB', 688)}[c.kind]
@@ -525,8 +525,8 @@ def run_case(case, res=None):
         if res is not None:
             multi = any(len(ps) >= 2 for ps in ex.params) or any(len(st_) >= 2 for _n, st_ in ex.chains)
             nt = ex.nblocks >= 2 and multi
-            res.case(fx.source[c.kind + ':' + c.name], nt,
-                     sample={'home': c.kind + ':' + c.name, 'text': ex.text, 'typed_values': typed} if nt and len(ex.text) < 1200 else None,
+            res.case(fx.source[c.key], nt,
+                     sample={'home': c.key, 'text': ex.text, 'typed_values': typed} if nt and len(ex.text) < 1200 else None,
                      classes=['home-' + c.kind, 'blocks-%d' % min(ex.nblocks, 4)] + ['f:' + f for f in sorted(ex.feats)])
     if u_epr:
         raise Violation('uniqueness:V_EPR-alternative-identifier-null', info,
